@@ -2,6 +2,8 @@ package props
 
 import (
 	"fmt"
+	"go/token"
+	"go/types"
 	"strings"
 
 	"golang.org/x/tools/go/ssa"
@@ -16,7 +18,7 @@ func init() {
 		Title: "Random UUIDs are always version 4 / variant 1 and generation is thread-safe",
 		Run:   runC19,
 		Explanation: "C19.source: every value stored into the shared generator is rand.New(rand.NewSource(·)) — the premise under which a draw is 63 fresh bits. C19.bits: bit-provenance evaluation of uu.RandomID over symbolic 63-bit draws a,b: Higher bits 15..12 must be the constants 0100, Lower bits 63..62 the constants 10, and the remaining 122 result bits copies of pairwise distinct source bits; composed with the bit-level reading of ID.Version/ID.Variant this makes Version()=4 and Variant()=1 on every draw. " +
-			"C19.lock: lockset + who-may-touch: the only function referencing the package-level PRNG is the one that draws; every use is dominated by randomMutex.Lock() with a deferred Unlock; the PRNG value is never returned, stored or captured, and passed only to a function parameter of an unexported function all of whose callers hand in function literals that merely draw (a callback under the lock); it receives only drawing methods — Seed is accepted only with a clock reading taken in place (a re-installed seed replays the stream within a run); RandomID touches no other package-level state.",
+			"C19.lock: lockset + who-may-touch: the only function referencing the package-level PRNG is the one that draws; every use is dominated by randomMutex.Lock() with a deferred Unlock; the PRNG value is never returned, stored or captured, and passed only to a function parameter of an unexported function all of whose callers hand in function literals that merely draw (a callback under the lock); it receives only drawing methods — every Seed after initialisation is reported (the stream restarts); an unexported drawing function counts as called under the lock only if every static call site holds it and the function is nowhere used as a value; a mutex held by pointer is set in the package initialiser only; RandomID touches no other package-level state. C19.bits also asks that no other exported function, method or package-level function literal of the package reaches a draw from math/rand, math/rand/v2 or crypto/rand (by call, closure or function value) except through RandomID.",
 		NotDecided:  []string{"absence of duplicates within a run and 'each of the 122 bits takes both values' are statistical properties of the math/rand stream", "the race detector's dynamic view (the lockset argument replaces it)"},
 		Assumptions: []string{"math/rand.Rand.Int63 returns a value with bit 63 clear", "math/rand.Rand is not goroutine-safe; sync.Mutex provides mutual exclusion"},
 		Technique:   "bit-provenance abstract interpretation + lockset/dominator analysis over go/ssa",
@@ -76,6 +78,14 @@ func ruleRandomSource(e *Env) {
 					}
 					break
 				}
+				// the source kept in a package variable of its own: every value stored there is rand.NewSource(·)
+				if ld, ok := src.(*ssa.UnOp); ok && ld.Op == token.MUL {
+					if sg, ok := ld.X.(*ssa.Global); ok {
+						if v := onlyStoredValue(e, sg); v != nil {
+							src = v
+						}
+					}
+				}
 				if sc, ok := src.(*ssa.Call); ok && calleeName(&sc.Call) == "math/rand.NewSource" {
 					e.S.Ok(rule, site, "generator", "rand.New(rand.NewSource(·)): the standard library's source, whose draws C19.bits takes for 63 fresh bits", e.posOf(st))
 				} else {
@@ -105,31 +115,78 @@ func ruleRandomBits(e *Env) {
 	draws0 := func(f *ssa.Function) bool {
 		for _, b := range f.Blocks {
 			for _, in := range b.Instrs {
-				if call, ok := in.(*ssa.Call); ok {
-					if g := call.Call.StaticCallee(); g != nil && strings.HasPrefix(g.String(), "(*math/rand.Rand).") && g.Name() != "Seed" {
-						return true
-					}
+				call, ok := in.(ssa.CallInstruction)
+				if !ok {
+					continue
+				}
+				if isRandomDraw(call.Common()) {
+					return true
 				}
 			}
 		}
 		return false
 	}
+	// reach: static callees, closures, and functions used as values (a drawing function handed to a helper is called
+	// by it); RandomID itself is a barrier — what it reaches is what C19.bits evaluates
+	reach := func(root *ssa.Function) *ssa.Function {
+		seen := map[*ssa.Function]bool{}
+		var hit *ssa.Function
+		var visit func(f *ssa.Function)
+		visit = func(f *ssa.Function) {
+			if f == nil || hit != nil {
+				return
+			}
+			f = flow.Origin(f)
+			if seen[f] || f == fn || f.Pkg == nil || f.Pkg.Pkg.Path() != fn.Pkg.Pkg.Path() {
+				return
+			}
+			seen[f] = true
+			if draws0(f) {
+				hit = f
+				return
+			}
+			for _, b := range f.Blocks {
+				for _, in := range b.Instrs {
+					for _, op := range in.Operands(nil) {
+						if op == nil || *op == nil {
+							continue
+						}
+						switch x := (*op).(type) {
+						case *ssa.Function:
+							visit(x)
+						case *ssa.MakeClosure:
+							if g, ok := x.Fn.(*ssa.Function); ok {
+								visit(g)
+							}
+						}
+					}
+				}
+			}
+			for _, a := range f.AnonFuncs {
+				visit(a)
+			}
+		}
+		visit(root)
+		return hit
+	}
 	for _, f := range e.PkgFuncs("uu") {
-		if flow.Origin(f) == fn || f.Object() == nil || !f.Object().Exported() || f.Name() == "init" {
+		if flow.Origin(f) == fn || f.Parent() != nil {
 			continue
 		}
-		for g := range e.C.Reachable(f) {
-			if draws0(g) {
-				e.S.Bad(rule, flow.FnName(f), "second generator", "draws from a random generator outside RandomID (through "+flow.FnName(g)+"): the IDs built here are not covered by the version/variant evaluation", e.Pos(f), "")
-				break
-			}
+		if f.Name() != "init" && (f.Object() == nil || !f.Object().Exported()) {
+			continue
+		}
+		if g := reach(f); g != nil {
+			e.S.Bad(rule, flow.FnName(f), "second generator", "draws from a random generator outside RandomID (through "+flow.FnName(g)+"): the IDs built here are not covered by the version/variant evaluation", e.Pos(f), "")
 		}
 	}
 	// every (*rand.Rand).Int63() call yields a fresh 63-bit symbol (bit 63 clear, documented by math/rand)
 	draws := 0
+	drawSyms := map[string]bool{}
 	ev := &pred.Evaluator{Prog: e.P.SSA, GlobalInit: e.globalTables(), Oracle: noOracle{}, Summaries: map[string]pred.Summary{
 		"(*math/rand.Rand).Int63": func(ev *pred.Evaluator, args []pred.Val) (pred.Val, error) {
 			draws++
+			drawSyms[string(rune('a'+draws-1))] = true
 			v := pred.SymBits(string(rune('a'+draws-1)), 64, true)
 			v.B[63] = pred.Bit{K: '0'}
 			return v, nil
@@ -170,7 +227,10 @@ func ruleRandomBits(e *Env) {
 			switch bit.K {
 			case 's':
 				k := fmt.Sprintf("%s[%d]", bit.Sym, bit.Idx)
-				if prev, dup := seen[k]; dup {
+				if !drawSyms[bit.Sym] {
+					// a symbol the evaluator made up for an arithmetic result: its bits are not copies of draw bits
+					e.S.Unk(rule, site, construct, "bit of the derived value "+bit.Sym+", not a copy of a draw bit (operation outside and/or/shift/convert with constants)", e.Pos(fn))
+				} else if prev, dup := seen[k]; dup {
 					e.S.Bad(rule, site, construct, "copies source bit "+k+" which also feeds "+prev+": fewer than 122 independent random bits", e.Pos(fn), "")
 				} else {
 					seen[k] = construct
@@ -210,4 +270,66 @@ func bitStr(b pred.Bit) string {
 		return "untracked"
 	}
 	return "constant " + string(b.K)
+}
+
+// isRandomDraw: a call that takes random bits — any function or method of math/rand, math/rand/v2 or crypto/rand
+// (static or through their interfaces) other than the constructors and Seed.
+func isRandomDraw(c *ssa.CallCommon) bool {
+	var pkg *types.Package
+	name := ""
+	if c.IsInvoke() {
+		pkg, name = c.Method.Pkg(), c.Method.Name()
+	} else if g := c.StaticCallee(); g != nil && g.Pkg != nil {
+		pkg, name = g.Pkg.Pkg, g.Name()
+	} else if g != nil && g.Object() != nil {
+		pkg, name = g.Object().Pkg(), g.Name()
+	}
+	if pkg == nil {
+		return false
+	}
+	switch pkg.Path() {
+	case "math/rand", "math/rand/v2", "crypto/rand":
+	default:
+		return false
+	}
+	return !strings.HasPrefix(name, "New") && name != "Seed" && name != "init"
+}
+
+// onlyStoredValue: the value of the single store into package variable g in the module (interface boxing removed);
+// nil if there is none or more than one.
+func onlyStoredValue(e *Env, g *ssa.Global) ssa.Value {
+	var val ssa.Value
+	n := 0
+	for _, fn := range flow.SortedFuncs(e.C.AllRepoFuncs()) {
+		for _, b := range fn.Blocks {
+			for _, in := range b.Instrs {
+				for _, op := range in.Operands(nil) {
+					if *op != ssa.Value(g) {
+						continue
+					}
+					if st, ok := in.(*ssa.Store); ok && st.Addr == ssa.Value(g) {
+						n++
+						val = st.Val
+					} else if ld, ok := in.(*ssa.UnOp); !ok || ld.Op != token.MUL || fn.Name() != "init" || fn.Parent() != nil {
+						return nil // address taken, or read outside the package initialiser (drawn from beside the lock)
+					}
+				}
+			}
+		}
+	}
+	if n != 1 {
+		return nil
+	}
+	for i := 0; i < 4; i++ {
+		switch x := val.(type) {
+		case *ssa.MakeInterface:
+			val = x.X
+			continue
+		case *ssa.ChangeInterface:
+			val = x.X
+			continue
+		}
+		break
+	}
+	return val
 }
